@@ -23,7 +23,7 @@ EXPLANATION = (
 )
 OUTSIDE = [
     "programs beyond the generator's depth 2 and beyond the first 24 (thorough 240) generated programs",
-    "macros / include / render inside the differential (their scoping is C07's subject); filters other than default size first last join plus minus times upcase downcase append prepend (C19 covers their laws)",
+    "macros, lambdas, array literals and template strings inside the generated differential (they have the 10 fixed programs of k_lambda); include / render (C07's subject); filters other than default size first last join plus minus times upcase downcase append prepend and the lambda filters (C19 covers their laws)",
     "`not` applied to an unparenthesised binary expression (undocumented precedence); comparison chains a == b == c; string iterables in `for`",
     "data outside: ints -1..3, 1-character strings over {a B space}, lists of up to 2 ints 0..2",
 ]
@@ -263,6 +263,52 @@ def k_loops(i: int, a: List[int], l: int, o: int) -> bool:
     except R.RefError:
         want = ("err",)
     return got == want
+
+
+# ---- lambdas, array literals, macros, template strings (quantifier items outside the generated grammar) ----
+def _lst(xs) -> str:
+    return ",".join(str(v) for v in xs)
+
+
+LAMBDA = [
+    ("{% assign x = 'o' %}{% assign h = a | find: x => x == n %}[{{ h }}|{{ x }}]",
+     lambda a, n: "[" + next((str(v) for v in a if v == n), "") + "|o]"),
+    ("{% assign x = 'o' %}[{{ a | find_index: x => x >= n }}|{{ x }}]",
+     lambda a, n: "[" + next((str(k) for k, v in enumerate(a) if v >= n), "") + "|o]"),
+    ("{% assign x = 'o' %}[{{ a | has: x => x == n }}|{{ x }}]",
+     lambda a, n: "[" + ("true" if n in a else "false") + "|o]"),
+    ("{% for i in a %}{% assign t = a | has: x => x == i %}{{ t }}{% endfor %}[{{ i }}{{ forloop.index }}{{ x }}]",
+     lambda a, n: "true" * len(a) + "[]"),
+    ("{% assign x = 'o' %}{{ a | where: x => x > n | join: ',' }}|{{ a | reject: x => x > n | join: ',' }}|{{ a | map: x => x | join: ',' }}|{{ x }}",
+     lambda a, n: _lst(v for v in a if v > n) + "|" + _lst(v for v in a if not v > n) + "|" + _lst(a) + "|o"),
+    ("{{ a | where: (x, j) => j >= n | join: ',' }}|{{ x }}{{ j }}|{{ a | find: (x, j) => j == n }}|{{ x }}{{ j }}",
+     lambda a, n: _lst(v for k, v in enumerate(a) if k >= n) + "||" + (str(a[n]) if 0 <= n < len(a) else "") + "|"),
+    ("{% with x: 5 %}{% assign t = a | find: y => y == n %}{{ x }}{{ y }}{% endwith %}[{{ x }}{{ y }}]{% for i in (1..2) %}{% assign t = a | has: y => y == n %}{% endfor %}[{{ i }}{{ y }}]",
+     lambda a, n: "5[][]"),
+    ("{% assign b = a[0], n, 'k' %}{{ b | join: '-' }}|{{ b | size }}|{% for v in b %}{{ v }}{% endfor %}|{% for v in n, 'q' %}{{ v }}{% endfor %}",
+     lambda a, n: "-".join([str(a[0]) if a else "", str(n), "k"]) + "|3|" + (str(a[0]) if a else "") + str(n) + "k|" + str(n) + "q"),
+    ("{% macro m, p, q: 7 %}({{ p }}{{ q }}{{ n }}{{ z }}){% assign z = 1 %}{% endmacro %}{% assign z = 'Z' %}{% call m, n %}{% call m, 1, q: n %}{% call m %}{{ z }}",
+     lambda a, n: "(" + str(n) + "7" + str(n) + ")(1" + str(n) + str(n) + ")(7" + str(n) + ")Z"),
+    ("{{ \"n=${n}, first=${a | first}, ${ 'x' | upcase }\" }}|{% assign s = 'v${n}' | append: \"${a.size}\" %}{{ s }}",
+     lambda a, n: "n=" + str(n) + ", first=" + (str(a[0]) if a else "") + ", X|v" + str(n) + str(len(a))),
+]
+LAMBDA_T = [BASE.from_string(src) for src, _ in LAMBDA]
+
+
+@cond(
+    pre=["len(a) <= 3", "all(0 <= k <= 2 for k in a)", "0 <= n <= 3"],
+    timeout=240,
+    shard={"i": list(range(len(LAMBDA)))},
+    covers="lambda filters (find, find_index, has, where, reject, map; one and two parameters) compute what the documentation says and their parameters are visible nowhere else: a later read of a same-named outer variable, the loop variable and forloop after the loop, a with-bound name; array literals in assign and for; macros with positional, keyword and default arguments; template strings with interpolated filtered expressions",
+    bounds="list len <= 3 of ints 0..2, n in 0..3; 10 programs with a direct Python oracle each",
+    grid=lambda: [(i, a, n) for i in range(len(LAMBDA)) for a in ([], [1], [2, 0, 1], [1, 1]) for n in (0, 1, 3)],
+)
+def k_lambda(i: int, a: List[int], n: int) -> bool:
+    try:
+        got = LAMBDA_T[i].render(a=a, n=n)
+    except LiquidError:
+        return False
+    return got == LAMBDA[i][1](a, n)
 
 
 CASE_T = BASE.from_string("{% case x %}{% when 1, y %}A{% when 2 %}{% when y %}{% assign z = 1 %}{% else %}E{% endcase %}|{% case s %}{% when 'a' or 'b' %}S{% when x %}X{% else %}{% endcase %}{{ z }}")
